@@ -45,6 +45,7 @@ def Current : Tree → Nat → FS → Path → Prop
   | .nontensor .., _, _, _ => True
   | .lazy .., _, _, _ => True
   | .tclass .., _, _, _ => True
+  | .ntstack .., _, _, _ => True
 def CurrentKids : List (String × Tree) → Nat → FS → Path → Prop
   | [], _, _, _ => True
   | (k, oc) :: rest, fuel, fs, dir => Current oc fuel fs (dir ++ [k]) ∧ CurrentKids rest fuel fs dir
@@ -61,6 +62,8 @@ theorem refresh_eq_load_aux : ∀ (old : Tree) (fuel : Nat) (fs : FS) (dir : Pat
   | .lazy .., _ + 1, _, _, _ => by simp [loadInto]
   | .tclass .., 0, _, _, _ => by simp [loadInto, load]
   | .tclass .., _ + 1, _, _, _ => by simp [loadInto]
+  | .ntstack .., 0, _, _, _ => by simp [loadInto, load]
+  | .ntstack .., _ + 1, _, _, _ => by simp [loadInto]
   | .node _ _ _, 0, _, _, _ => by simp [loadInto, load]
   | .node ob od oldKids, f + 1, fs, dir, h => by
     simp only [Current] at h
